@@ -403,10 +403,9 @@ class PartitionedArray(object):
         return sum(x.nbytes for x in self.partitions)
 
     def deep_copy(self, *args, **kwargs):
-        out = type(self).__new__(type(self))
-        out.__dict__.update(self.__dict__)
-        out._partitions = [x.deep_copy(*args, **kwargs) for x in out.partitions]
-        return out
+        return self.replace_partitions(
+            [x.deep_copy(*args, **kwargs) for x in self.partitions]
+        )
 
     @property
     def identity(self):
